@@ -165,6 +165,65 @@ def loops_to_comprehensions(fn, stats: Dict[str, int]) -> None:
     rec(fn)
 
 
+# --------------------------------------------------------------------------- in-place set update -> rebinding
+def _fresh_set(v: ast.expr) -> bool:
+    if isinstance(v, (ast.Set, ast.SetComp)):
+        return True
+    if isinstance(v, ast.Call) and isinstance(v.func, ast.Name) and v.func.id == "set":
+        return True
+    if isinstance(v, ast.Call) and isinstance(v.func, ast.Attribute) and v.func.attr in ("copy", "union", "difference", "intersection") :
+        return True
+    if isinstance(v, ast.BinOp) and isinstance(v.op, (ast.BitOr, ast.Sub, ast.BitAnd)) and (_fresh_set(v.left) or _fresh_set(v.right)):
+        return True
+    return False
+
+
+def set_updates_to_rebinding(fn, stats: Dict[str, int]) -> None:
+    """for a local X first bound to a fresh set in this function and never aliased: `X.update(Y)` -> `X = X | Y`,
+    `X.add(e)` -> `X = X | {e}` (statements of the function itself, not of nested functions)"""
+    first: Dict[str, ast.expr] = {}
+    aliased = set()
+    nested_names = set()
+    for n in ast.walk(fn):
+        if n is not fn and isinstance(n, (ast.FunctionDef, ast.AsyncFunctionDef, ast.Lambda)):
+            nested_names |= {x.id for x in ast.walk(n) if isinstance(x, ast.Name)}
+    params = {a.arg for a in fn.args.posonlyargs + fn.args.args + fn.args.kwonlyargs}
+
+    def scan(body):
+        for st in body:
+            if isinstance(st, (ast.FunctionDef, ast.AsyncFunctionDef, ast.ClassDef)):
+                continue
+            if isinstance(st, ast.Assign) and len(st.targets) == 1 and isinstance(st.targets[0], ast.Name):
+                first.setdefault(st.targets[0].id, st.value)
+            if isinstance(st, ast.Assign) and isinstance(st.value, ast.Name):
+                aliased.add(st.value.id)
+            for fld, b in _blocks(st):
+                scan(b)
+    scan(fn.body)
+    cands = {k for k, v in first.items() if _fresh_set(v) and k not in aliased and k not in nested_names and k not in params}
+    if not cands:
+        return
+
+    def rewrite(body):
+        for i, st in enumerate(body):
+            if isinstance(st, (ast.FunctionDef, ast.AsyncFunctionDef, ast.ClassDef)):
+                continue
+            if isinstance(st, ast.Expr) and isinstance(st.value, ast.Call) and isinstance(st.value.func, ast.Attribute) and isinstance(st.value.func.value, ast.Name) \
+                    and st.value.func.value.id in cands and st.value.func.attr in ("update", "add") and len(st.value.args) == 1 and not st.value.keywords:
+                x = st.value.func.value.id
+                arg = st.value.args[0]
+                rhs = arg if st.value.func.attr == "update" else ast.Set(elts=[arg])
+                new = ast.Assign(targets=[ast.Name(id=x, ctx=ast.Store())], value=ast.BinOp(left=ast.Name(id=x, ctx=ast.Load()), op=ast.BitOr(), right=rhs), type_comment=None)
+                ast.copy_location(new, st)
+                ast.fix_missing_locations(new)
+                body[i] = new
+                stats["setupdate"] += 1
+                continue
+            for fld, b in _blocks(st):
+                rewrite(b)
+    rewrite(fn.body)
+
+
 def _rewrite_block(body: List[ast.stmt], in_function: bool, stats: Dict[str, int], fn) -> List[ast.stmt]:
     out: List[ast.stmt] = []
     i = 0
@@ -249,11 +308,12 @@ def _walk(node: ast.AST, in_function: bool, stats: Dict[str, int], fn) -> None:
 
 
 def normalise_tree(tree: ast.Module) -> Dict[str, int]:
-    stats = {"docstring": 0, "logging": 0, "else": 0, "tempreturn": 0, "annotation": 0, "ifexp": 0, "loop2comp": 0}
+    stats = {"docstring": 0, "logging": 0, "else": 0, "tempreturn": 0, "annotation": 0, "ifexp": 0, "loop2comp": 0, "setupdate": 0}
     _walk(tree, False, stats, None)
     for n in ast.walk(tree):
         if isinstance(n, (ast.FunctionDef, ast.AsyncFunctionDef)):
             loops_to_comprehensions(n, stats)
+            set_updates_to_rebinding(n, stats)
     if stats["loop2comp"]:
         _walk(tree, False, stats, None)  # e.g. `x = [..comp..]; return x`
     return stats
